@@ -24,6 +24,7 @@ type SpecEnv struct {
 	fn         *ssa.Function
 	ghostLocal map[string]*Term
 	inOld      bool
+	callee     bool // evaluating a callee's contract at a call site: the caller's locals and ghosts are not in scope
 }
 
 func (se *SpecEnv) F() *Factory { return se.fr.v.F }
@@ -241,7 +242,7 @@ func (se *SpecEnv) lookupVar(name string) (Value, bool) {
 	if v, ok := se.vars[name]; ok {
 		// a by-value parameter that the function spills to memory and updates in place (m.Square(&tmp)):
 		// outside old(), the name denotes the current contents of that cell
-		if se.ghostLocal == nil && !se.inOld {
+		if se.ghostLocal == nil && !se.inOld && !se.callee {
 			if cur, ok2 := se.state().srcVar[name]; ok2 && se.state().srcAdr[name] {
 				if _, isPtr := v.(*PtrV); !isPtr {
 					return cur, true
@@ -250,7 +251,7 @@ func (se *SpecEnv) lookupVar(name string) (Value, bool) {
 		}
 		return v, true
 	}
-	if se.ghostLocal == nil {
+	if se.ghostLocal == nil && !se.callee {
 		if t, ok := se.state().ghosts[name]; ok {
 			return t, true
 		}
@@ -733,6 +734,12 @@ func (se *SpecEnv) callSpec(c *ast.CallExpr) Value {
 		return se.fr.v.ringIsZero(targ(0))
 	case "inv":
 		return se.fr.v.ringInv(targ(0))
+	case "mlambda": // mlambda(T): the integer by which the endomorphism phi acts on the elements of the module type T
+		id, ok := c.Args[0].(*ast.Ident)
+		if !ok {
+			unsup("mlambda(<point type>)")
+		}
+		return F.Var("module.lambda."+id.Name, SInt)
 	case "qof": // qof(name): the pinned modulus of the imported field package with that name (qof(fp))
 		id, ok := c.Args[0].(*ast.Ident)
 		if !ok || se.pkg == nil {
@@ -773,6 +780,28 @@ func (se *SpecEnv) callSpec(c *ast.CallExpr) Value {
 		return F.Add(sum...)
 	case "be", "le": // big/little-endian value of a byte array or slice window of constant length
 		return se.bytesVal(arg(0), name == "be")
+	case "lewords": // lewords(w, lo): little-endian value of the 64-bit words w[lo:] (symbolic lo): big.fromwords, whose
+		// recursive meaning the contract states in its preamble
+		sl, ok := se.deref(arg(0)).(*SliceV)
+		if !ok || sl.Obj == nil {
+			unsup("lewords: not a slice")
+		}
+		arr, ok := se.fr.v.content(se.state(), sl.Obj).(*ArrV)
+		if !ok {
+			unsup("lewords: slice without symbolic contents")
+		}
+		return F.App("big.fromwords", SInt, arr.Arr, F.Add(sl.Off, targ(1)), F.Add(sl.Off, sl.Len))
+	case "bepre": // bepre(b, n): big-endian value of the first n bytes of the slice b (symbolic n): big.frombytes, whose
+		// recursive meaning the contract states in its preamble
+		sl, ok := se.deref(arg(0)).(*SliceV)
+		if !ok || sl.Obj == nil {
+			unsup("bepre: not a slice")
+		}
+		arr, ok := se.fr.v.content(se.state(), sl.Obj).(*ArrV)
+		if !ok {
+			unsup("bepre: slice without symbolic contents")
+		}
+		return F.App("big.frombytes", SInt, arr.Arr, sl.Off, targ(1))
 	case "same": // same(a, b): pointer identity (an lvalue that denotes a pointer-typed cell is read first)
 		rd := func(x Value) Value {
 			if pv, ok := x.(*PtrV); ok && pv.Obj != nil && len(pv.Path) > 0 {
